@@ -8,6 +8,7 @@
 package main
 
 import (
+	"bytes"
 	"encoding/json"
 	"errors"
 	"fmt"
@@ -335,6 +336,7 @@ func checkProgram(ps emitbatch.ProgSpec, bt batch, ns *rig.NatsServer) *progResu
 			for li, lp := range bt.Legs {
 				checkService(prog, f, svc, gs, methods, lp[0], lp[1], bt.Calls, rng, ns, res, addV, li == 0)
 			}
+			afterOversizeReply(prog, svc, gs, methods, []string{"binary", "compact", "json"}[int(ps.Seed&0xffff)%3], rng, ns, res, addV)
 			if pf, parent := parentOf(prog, f, svc); parent != nil {
 				if pgs, pn := findEmitted(pkgs, pf, parent); pgs != nil && pn == 1 {
 					for _, lp := range bt.Legs {
@@ -494,6 +496,119 @@ func checkService(prog *idl.Program, f *idl.File, svc *idl.Service, gs *genreg.S
 }
 
 var manyConnFailed int32
+var forceOversize bool
+var oversizePhases, oversizeFailed int32
+
+// afterOversizeReply: on the NATS leg (the one transport whose server bounds
+// the reply) a handler returns a value that cannot travel; the caller must be
+// told RESPONSE_TOO_LARGE and every later call on the same server — own and
+// inherited methods share the processor — must be served as usual.
+func afterOversizeReply(prog *idl.Program, svc *idl.Service, gs *genreg.Service, methods []methodInfo, proto string, rng *rand.Rand, ns *rig.NatsServer, res *progResult, addV func(string, string, interface{})) {
+	if ns == nil || atomic.LoadInt32(&oversizeFailed) >= 1 || atomic.LoadInt32(&oversizePhases) >= 6 {
+		return
+	}
+	var big *methodInfo
+	var two []methodInfo
+	for i := range methods {
+		mi := methods[i]
+		if mi.m.Oneway {
+			continue
+		}
+		two = append(two, mi)
+		if mi.m.Ret != nil && big == nil {
+			if k, _, _, _ := prog.ResolveKind(mi.file, mi.m.Ret); k == "string" || k == "binary" {
+				big = &methods[i]
+			}
+		}
+	}
+	if big == nil {
+		return
+	}
+	atomic.AddInt32(&oversizePhases, 1)
+	inner := addV
+	addV = func(sig, what string, w interface{}) {
+		atomic.AddInt32(&oversizeFailed, 1)
+		inner(sig, what, w)
+	}
+	exp := &expectation{calls: map[string]int{}, args: map[string][]interface{}{}, outcome: map[string][]interface{}{}, observed: make(chan string, 1024)}
+	recorder := func(iface, method string, args []interface{}) []interface{} {
+		fctx, _ := args[0].(frugal.FContext)
+		token := ""
+		if fctx != nil {
+			token = fctx.CorrelationID()
+		}
+		exp.mu.Lock()
+		exp.calls[token]++
+		exp.args[token] = append([]interface{}{method}, args[1:]...)
+		out := exp.outcome[token]
+		exp.mu.Unlock()
+		select {
+		case exp.observed <- token:
+		default:
+		}
+		return out
+	}
+	var proc frugal.FProcessor
+	func() {
+		defer func() { recover() }()
+		proc = gs.NewProcessor(gs.NewStub(recorder))
+	}()
+	if proc == nil {
+		return
+	}
+	leg, err := rig.StartRPCLeg("nats", proto, proc, ns, rig.LegOptions{NatsWorkers: 2})
+	if err != nil {
+		res.Inconclusive = append(res.Inconclusive, fmt.Sprintf("leg nats/%s (oversize reply): %v", proto, err))
+		return
+	}
+	defer leg.Stop()
+	tr, err := leg.NewClient()
+	if err != nil {
+		res.Inconclusive = append(res.Inconclusive, fmt.Sprintf("client nats/%s (oversize reply): %v", proto, err))
+		return
+	}
+	client := reflect.ValueOf(gs.NewClient(frugal.NewFServiceProvider(tr, leg.PF)))
+	method := func(mi methodInfo) reflect.Value {
+		ct := client.Type()
+		var gm reflect.Value
+		for i := 0; i < ct.NumMethod(); i++ {
+			if norm(ct.Method(i).Name) == norm(mi.m.Name) {
+				gm = client.Method(i)
+			}
+		}
+		return gm
+	}
+	legName := "nats/" + proto + "(after an oversize reply)"
+	gm := method(*big)
+	if !gm.IsValid() {
+		return
+	}
+	forceOversize = true
+	one := runCall(prog, svc, *big, gm, fmt.Sprintf("%s-%s-oversize-%s", svc.Name, big.m.Name, proto), legName, rng, exp, leg, res, addV)
+	forceOversize = false
+	resMu.Lock()
+	res.Calls++
+	if one != "" {
+		res.Outcomes[one]++
+	}
+	resMu.Unlock()
+	if atomic.LoadInt32(&oversizeFailed) > 0 {
+		return
+	}
+	for c := 0; c < 4; c++ {
+		mi := two[rng.Intn(len(two))]
+		if gm := method(mi); gm.IsValid() {
+			one := runCall(prog, svc, mi, gm, fmt.Sprintf("%s-%s-after-oversize-%s-%d", svc.Name, mi.m.Name, proto, c), legName, rng, exp, leg, res, addV)
+			resMu.Lock()
+			res.Calls++
+			if one != "" {
+				res.Outcomes[one+"(after an oversize reply)"]++
+			}
+			resMu.Unlock()
+		}
+	}
+}
+
 var olderServerFailed int32
 
 // olderServer: a client generated for a service talks to a server that only
@@ -811,6 +926,18 @@ func runCall(prog *idl.Program, svc *idl.Service, mi methodInfo, gm reflect.Valu
 		wantAppType = []int32{frugal.APPLICATION_EXCEPTION_UNKNOWN, frugal.APPLICATION_EXCEPTION_MISSING_RESULT, frugal.APPLICATION_EXCEPTION_INVALID_TRANSFORM, 42}[rng.Intn(4)]
 		outcome[nOut-1] = thrift.NewTApplicationException(wantAppType, "app "+token)
 	}
+	if forceOversize && retIdx >= 0 && !m.Oneway {
+		if k, _, _, _ := prog.ResolveKind(mi.file, m.Ret); k == "string" || k == "binary" {
+			class = "oversize-reply"
+			outcome = make([]interface{}, nOut)
+			av := &idl.AV{Kind: k, S: bytes.Repeat([]byte("R"), 1200000)}
+			rv := reflect.New(mt.Out(0)).Elem()
+			if err := gocodec.FillGo(rv, av); err != nil {
+				return ""
+			}
+			outcome[0] = rv.Interface()
+		}
+	}
 	if class == "value" || class == "oneway" {
 		if retIdx >= 0 {
 			av := prog.GenValue(rng, mi.file, m.Ret, 1)
@@ -948,6 +1075,19 @@ func runCall(prog *idl.Program, svc *idl.Service, mi methodInfo, gm reflect.Valu
 		}
 		if !matched {
 			addV("C03:declared-exception-differs", fmt.Sprintf("%s.%s on %s: the exception the caller got differs from the one the handler raised", svc.Name, m.Name, legName), wit(map[string]interface{}{"raised": wantExc, "caller": fmt.Sprintf("%T %v", callErr, callErr)}))
+		}
+	case "oversize-reply":
+		// the NATS server bounds a reply at 1 MiB: the handler's outcome cannot
+		// travel, the caller is told so (and the server goes on serving)
+		tooLarge := false
+		if te, ok := callErr.(thrift.TTransportException); ok && te.TypeId() == frugal.TRANSPORT_EXCEPTION_RESPONSE_TOO_LARGE {
+			tooLarge = true
+		}
+		if ae, ok := callErr.(thrift.TApplicationException); ok && ae.TypeId() == frugal.APPLICATION_EXCEPTION_RESPONSE_TOO_LARGE {
+			tooLarge = true
+		}
+		if !tooLarge {
+			addV("C03:oversize-reply-outcome", fmt.Sprintf("%s.%s on %s: the handler returned a 1.2 MB value over a transport that bounds replies at 1 MiB; the caller got %T %v instead of RESPONSE_TOO_LARGE", svc.Name, m.Name, legName, callErr, callErr), wit(nil))
 		}
 	case "undeclared-error", "application-exception":
 		ae, ok := callErr.(thrift.TApplicationException)
